@@ -103,6 +103,7 @@ def inferReport (L : LBlock) : List (String × Json) :=
   [("infer", jList (fun p => Json.arr #[jNat p.1, stateToJson (inferL D fuel [] p.1)]) (ldefsB L)),
    ("annot", jList stateToJson (annotLB D fuel L)),
    ("linksSound", Json.bool (soundChkB D fuel L noFacts)),
+   ("ranked", Json.bool (rankedChk (ldefsB L) (ldefsB L).length && closedChk (ldefsB L))),
    ("nstates", jNat (ldefsB L).length)]
 
 /-- args: {"body": untraced program} -> {"woven": traced program, "infer": …, "annot": …, "wf", "nodup"} -/
